@@ -427,7 +427,16 @@ impl Gen {
             if c.is_empty() {
                 return None;
             }
-            return Some(oc(op, self.pick(&c), 0, 0, vec![self.pick(&[1i64, 3, 5])]));
+            let a = self.pick(&c);
+            let p2 = self.pick(&[1i64, 3, 5]);
+            if self.p(0.6) {
+                // followed by the same norm of the negated / absolute operand (norms do not depend on signs)
+                let s = self.slot_except(&[a]);
+                let flip = self.pick(&["negative", "abs"]);
+                self.pending.push_back(oc(flip, a, 0, s, vec![]));
+                self.pending.push_back(oc(op, s, 0, 0, vec![p2]));
+            }
+            return Some(oc(op, a, 0, 0, vec![p2]));
         }
         let a = self.pick_m(meta, bound)?;
         Some(match op {
@@ -690,7 +699,15 @@ impl Gen {
                 let a = self.pick(&c);
                 Some(match op {
                     "v_normp" => oc(op, a, 0, 0, vec![self.ri(2, 3)]),
-                    "v_norm_half" => oc(op, a, 0, 0, vec![self.pick(&[1i64, 3, 5])]),
+                    "v_norm_half" => {
+                        let p2 = self.pick(&[1i64, 3, 5]);
+                        if self.p(0.6) {
+                            let s = self.slot_except(&[a]);
+                            self.pending.push_back(oc("v_mul_scalar", a, 0, s, vec![-1]));
+                            self.pending.push_back(oc(op, s, 0, 0, vec![p2]));
+                        }
+                        oc(op, a, 0, 0, vec![p2])
+                    }
                     "v_clone" => oc(op, a, 0, dst, vec![]),
                     _ => oc(op, a, 0, 0, vec![]),
                 })
